@@ -11,6 +11,7 @@ import Driver.Util
       block <enc> <endian> <datatype> <dims> <ord> <text|_> <table>*     read_data_block
       wblock <itemsize> <machine big 0|1> <memory big 0|1> <col 0|1> <dims> <hex memory bytes>
                              bytes `_data_tag_element` hands to zlib/base64 (hex)
+      wevents <image tokens>   handler calls the serialisation of the image produces (writer model `imgEvents`)
       parse <event|table>*   the parser event machine
     text  = code points in hex joined by '.', '-' = empty
     event = S~tag~k=text~k=text… | C~text | E~tag
@@ -223,6 +224,58 @@ def showImg (i : Img) : String :=
   "ok " ++ showText i.version ++ " M" ++ showMD i.gmeta ++ " L[" ++ ",".intercalate (i.labels.map showLabel) ++ "]" ++
     String.join (i.darrays.map (fun d => " " ++ showDA d))
 
+/-! writer events -/
+
+def showEvent : Event → String
+  | .start tag attrs => "~".intercalate (["S", tag] ++ attrs.map (fun p => p.1 ++ "=" ++ showText p.2))
+  | .chars t => "C~" ++ showText t
+  | .stop tag => "E~" ++ tag
+
+def parsePair? (s : String) : Option (Text × Text) :=
+  match s.splitOn ":" with
+  | [k, v] => do
+    let k ← parseText? k
+    let v ← parseText? v
+    pure (k, v)
+  | _ => none
+
+def parseOT? (s : String) : Option (Option Text) := if s = "_" then some none else (parseText? s).map some
+
+/-- tokens of an image description: V~version | M~k:v~… | L~key~label~r~g~b~a |
+    D~intent~dt~ord~enc~endian~dims~fname~offset~ds~xs~matrixtext~datatext~k:v~… -/
+def parseWImg? : List String → WImg → Option WImg
+  | [], w => some w
+  | t :: ts, w =>
+    match t.splitOn "~" with
+    | ["V", v] => (parseText? v).bind (fun v => parseWImg? ts { w with version := v })
+    | "M" :: kvs => (kvs.mapM parsePair?).bind (fun m => parseWImg? ts { w with gmeta := m })
+    | ["L", key, lab, r, g, b, a] => do
+      let key ← key.toNat?
+      let lab ← parseText? lab
+      let r ← parseOT? r
+      let g ← parseOT? g
+      let b ← parseOT? b
+      let a ← parseOT? a
+      parseWImg? ts { w with labels := w.labels ++ [{ key := key, label := lab, red := r, green := g, blue := b, alpha := a }] }
+    | "D" :: it :: dt :: ord :: enc :: en :: dims :: fname :: off :: ds :: xs :: mtext :: dtext :: kvs => do
+      let it ← it.toNat?
+      let dt ← dt.toNat?
+      let ord ← ord.toNat?
+      let enc ← enc.toNat?
+      let en ← en.toNat?
+      let dims ← parseNatList? dims
+      let fname ← parseText? fname
+      let off ← off.toNat?
+      let ds ← ds.toNat?
+      let xs ← xs.toNat?
+      let mtext ← parseText? mtext
+      let dtext ← parseText? dtext
+      let m ← kvs.mapM parsePair?
+      parseWImg? ts { w with darrays := w.darrays ++ [{ intent := it, datatype := dt, indOrd := ord, encoding := enc,
+        endian := en, dims := dims, extFname := fname, extOffset := off, dmeta := m,
+        coordsys := { dataspace := ds, xformspace := xs, matrixText := mtext }, dataText := dtext }] }
+    | _ => none
+
 def handle : List String → String
   | "hist" :: ops =>
     match runHist [] ops with
@@ -257,6 +310,10 @@ def handle : List String → String
           if bs.isEmpty then "-" else String.join (bs.map (fun b => String.ofList [hexDigit (b / 16), hexDigit (b % 16)]))
         | .error _ => "ERR"
     | _, _, _, _, _, _ => "bad-op"
+  | "wevents" :: toks =>
+    match parseWImg? toks { version := [], gmeta := [], labels := [], darrays := [] } with
+    | some w => " ".intercalate ((imgEvents Nb.C17.Gen.names w).map showEvent)
+    | none => "bad-op"
   | "parse" :: toks =>
     match splitEvents toks {} [] with
     | some (T, es) =>
